@@ -101,22 +101,23 @@ type tok struct {
 }
 
 type refRun struct {
-	in       *RefInput
-	d        *Decl
-	res      *RefResult
-	ctx      *Cmd
-	chain    []*Cmd // root..ctx
-	sc       scopeT
-	pending  []*PosArg
-	posCmd   *Cmd
-	posEl    map[string][]interface{}
-	occ      map[string][]interface{} // opt id -> element values so far
-	occN     map[string]int
-	args     []tok
-	helpOpt  *OptInfo
-	replDone bool
-	curIdx   int
-	optsOf   map[*Cmd][]*OptInfo
+	in         *RefInput
+	d          *Decl
+	res        *RefResult
+	ctx        *Cmd
+	chain      []*Cmd // root..ctx
+	sc         scopeT
+	pending    []*PosArg
+	posCmd     *Cmd
+	posEl      map[string][]interface{}
+	occ        map[string][]interface{} // opt id -> element values so far
+	occN       map[string]int
+	args       []tok
+	helpOpt    *OptInfo
+	replDone   bool
+	unknownCmd bool // the walk stopped at a word that is no command although one is required
+	curIdx     int
+	optsOf     map[*Cmd][]*OptInfo
 }
 
 var helpOptDecl = Opt{ID: "__help", Field: "ShowHelp", Kind: KFunc0, Short: "h", Long: "help", Desc: "Show this help message"}
@@ -451,6 +452,7 @@ loop:
 					// unknown command word: parsing stops here; the
 					// diagnosis is made after defaults/required checks
 					r.pass(t)
+					r.unknownCmd = true
 					break loop
 				}
 			}
@@ -798,7 +800,7 @@ type WalkState struct {
 // rejected or undetermined.
 func WalkPrefix(d *Decl, prefix []string) (*WalkState, bool) {
 	ref := Ref(&RefInput{D: d, Args: prefix, WalkOnly: true})
-	if ref.Err != nil || ref.Undetermined != "" {
+	if ref.Err != nil || ref.Undetermined != "" || ref.run.unknownCmd {
 		return nil, false
 	}
 	r := ref.run
